@@ -27,9 +27,17 @@ FOOTER = '''		</variables>
 '''
 
 
-def document(name, variables, start="1", stop="3", dt="<dt>1</dt>"):
-    """variables: list of xml snippets"""
-    return HEADER % (name, start, stop, dt) + "".join(variables) + FOOTER
+def document(name, variables, start="1", stop="3", dt="<dt>1</dt>", modules=None):
+    """variables: list of xml snippets of the root model; modules: {module name: list of xml snippets}"""
+    root = list(variables)
+    extra = ""
+    for mname, mvars in (modules or {}).items():
+        root.append('\t\t\t<module name="%s"/>\n' % mname)
+        extra += '\t<model name="%s">\n\t\t<variables>\n%s\t\t</variables>\n\t</model>\n' % (mname, "".join(mvars))
+    text = HEADER % (name, start, stop, dt) + "".join(root) + FOOTER
+    if extra:
+        text = text.replace("</xmile>", extra + "</xmile>")
+    return text
 
 
 def aux(name, eqn):
